@@ -1003,7 +1003,7 @@ pub fn run(ctx: &Ctx) -> ! {
                 }
             }
         }
-        let variants = 2u64;
+        let variants = if quick { 1u64 } else { 2u64 };
         let bss = 4u64;
         let per_item = |class: u8| match class {
             0 => hc.len() as u64,
@@ -1017,7 +1017,7 @@ pub fn run(ctx: &Ctx) -> ! {
             total += per_item(it.2) * variants * bss;
         }
         st.extra.insert("history_bounds".into(), json!({"rows_max": nmax_h, "rows_max_at_2_deviations": n2max, "histories": items.iter().filter(|i| i.2 != 1).count(),
-            "configs_<=1": hc.len(), "configs_2": hc2.len(), "configs_for_histories_with_empty_write(quick)": hce.len(), "reader_batch_sizes": [1024,1,2,3], "content_variants": 2,
+            "configs_<=1": hc.len(), "configs_2": hc2.len(), "configs_for_histories_with_empty_write(quick)": hce.len(), "reader_batch_sizes": [1024,1,2,3], "content_variants": variants,
             "columns": htys.iter().map(|t| t.name.clone()).collect::<Vec<_>>()}));
         st.merge(par_for(ctx, "history", total, 64, |idx, st| {
             let ii = match starts.binary_search(&idx) {
@@ -1125,10 +1125,14 @@ pub fn run(ctx: &Ctx) -> ! {
     // ---------------- parallel column writers
     if want("parallel") {
         let schemas = parallel_schemas();
-        let pdims: Vec<usize> = vec![D_VERSION, D_DICT, D_DICT_LIMIT, D_COMPRESSION, D_BLOOM, D_STATS, D_PAGE_ROWS, D_WBS, D_NDV, D_PAGE_SIZE, D_LAYOUT];
+        let pdims: Vec<usize> = if quick { vec![D_VERSION, D_DICT, D_DICT_LIMIT, D_BLOOM, D_STATS, D_PAGE_ROWS, D_WBS, D_NDV, D_PAGE_SIZE, D_LAYOUT] } else { vec![D_VERSION, D_DICT, D_DICT_LIMIT, D_COMPRESSION, D_BLOOM, D_STATS, D_PAGE_ROWS, D_WBS, D_NDV, D_PAGE_SIZE, D_LAYOUT] };
         let mut pc = exactly(0, &pdims);
         pc.extend(exactly(1, &pdims));
-        if !quick {
+        if quick {
+            // two codecs (one block codec, one with a reusable context) instead of all six
+            pc.push(Cfg::default().with(D_COMPRESSION, 1));
+            pc.push(Cfg::default().with(D_COMPRESSION, 6));
+        } else {
             pc.extend(exactly(2, &pdims));
         }
         // (a) two batches in one row group: 3 leaf columns x [write, write, close] -> 1680 interleavings
